@@ -10,6 +10,7 @@ import (
 	"os"
 	"path/filepath"
 	"sort"
+	"strconv"
 	"strings"
 )
 
@@ -663,6 +664,127 @@ func (s *scanned) ambientCalls() [][2]string {
 				fn = fd.Name.Name
 			}
 			out = append(out, [2]string{fn, obj.Pkg().Path() + "." + obj.Name()})
+			return true
+		})
+	}
+	sort.Slice(out, func(i, j int) bool { return out[i][0]+out[i][1] < out[j][0]+out[j][1] })
+	return out
+}
+
+// addressFormats lists the fmt calls of pkg/codegen that print a value by address: a formatting verb applied to an
+// argument whose text holds a heap address (a pointer that is not rendered by its own Error / String method, a pointer
+// below the top level of a struct, a channel, a function), or the verb %p. Such a text differs from load to load of one
+// document, so an error or an output built from it is not a function of the document (C02).
+func (s *scanned) addressFormats() [][2]string {
+	var out [][2]string
+	implementsTextMethod := func(t types.Type) bool {
+		for _, name := range []string{"Error", "String"} {
+			obj, _, _ := types.LookupFieldOrMethod(t, true, nil, name)
+			if fn, ok := obj.(*types.Func); ok {
+				if sig, ok := fn.Type().(*types.Signature); ok && sig.Params().Len() == 0 && sig.Results().Len() == 1 {
+					return true
+				}
+			}
+		}
+		return false
+	}
+	var prints func(t types.Type, top bool, depth int) bool
+	prints = func(t types.Type, top bool, depth int) bool {
+		if t == nil || depth > 4 {
+			return false
+		}
+		if implementsTextMethod(t) {
+			return false
+		}
+		switch u := t.Underlying().(type) {
+		case *types.Pointer:
+			if top { // fmt prints a top-level pointer to a struct, slice, array or map as & followed by the contents
+				switch e := u.Elem().Underlying().(type) {
+				case *types.Struct:
+					for i := 0; i < e.NumFields(); i++ {
+						if prints(e.Field(i).Type(), false, depth+1) {
+							return true
+						}
+					}
+					return false
+				case *types.Slice:
+					return prints(e.Elem(), false, depth+1)
+				case *types.Array:
+					return prints(e.Elem(), false, depth+1)
+				case *types.Map:
+					return prints(e.Key(), false, depth+1) || prints(e.Elem(), false, depth+1)
+				}
+			}
+			return true
+		case *types.Struct:
+			for i := 0; i < u.NumFields(); i++ {
+				if prints(u.Field(i).Type(), false, depth+1) {
+					return true
+				}
+			}
+		case *types.Slice:
+			return prints(u.Elem(), false, depth+1)
+		case *types.Array:
+			return prints(u.Elem(), false, depth+1)
+		case *types.Map:
+			return prints(u.Key(), false, depth+1) || prints(u.Elem(), false, depth+1)
+		case *types.Chan, *types.Signature:
+			return true
+		}
+		return false
+	}
+	fmtFuncs := map[string]int{"Errorf": 0, "Sprintf": 0, "Printf": 0, "Fprintf": 1} // index of the format argument
+	for _, f := range s.files {
+		ast.Inspect(f, func(n ast.Node) bool {
+			call, ok := n.(*ast.CallExpr)
+			if !ok {
+				return true
+			}
+			sel, ok := call.Fun.(*ast.SelectorExpr)
+			if !ok {
+				return true
+			}
+			obj := s.info.Uses[sel.Sel]
+			if obj == nil || obj.Pkg() == nil || obj.Pkg().Path() != "fmt" {
+				return true
+			}
+			fi, listed := fmtFuncs[obj.Name()]
+			if !listed || len(call.Args) <= fi {
+				return true
+			}
+			tv, ok := s.info.Types[call.Args[fi]]
+			if !ok || tv.Value == nil {
+				return true
+			}
+			format, err := strconv.Unquote(tv.Value.ExactString())
+			if err != nil {
+				return true
+			}
+			fn := "(package level)"
+			if fd := s.funcOf(n); fd != nil {
+				fn = fd.Name.Name
+			}
+			arg := fi + 1
+			for i := 0; i < len(format); i++ {
+				if format[i] != '%' {
+					continue
+				}
+				i++
+				for i < len(format) && strings.ContainsRune("+-# 0123456789.[]*", rune(format[i])) {
+					i++
+				}
+				if i >= len(format) || format[i] == '%' {
+					continue
+				}
+				verb := format[i]
+				if arg < len(call.Args) {
+					t := s.info.TypeOf(call.Args[arg])
+					if verb == 'p' || (verb != 'T' && verb != 't' && prints(t, true, 0)) {
+						out = append(out, [2]string{fn, fmt.Sprintf("%%%c of %s", verb, t)})
+					}
+				}
+				arg++
+			}
 			return true
 		})
 	}
